@@ -21,6 +21,7 @@ def scenarios(rng, quick):
             S.append(("onto-existing/" + comp, base + q(1, pad) + " R:nm:1 " + q(2, pad) + " W D",
                       {"s0_o1" + {"n": "", "g": ".gz", "x": ".xz"}[comp]: "0102030405"}))
             S.append(("nothing-written/" + comp, base + "R:nm:1 R:nm:0 D", {}))
+            S.append(("rotate-after-flush/" + comp, base + " ".join(q(i, pad) for i in range(1, 4)) + " R:nm:1 " + q(5, pad) + " W R:nm:0 " + q(6, pad) + " D", {}))
     if not quick:
         for i in range(280):
             comp = rng.choice("ngx")
@@ -88,6 +89,28 @@ def check(run):
         model_lines.append(("fs " + ",".join("%s:%d" % x for x in outs_in_order), trace, name, sess))
         for k in range(1, n + 1):
             crash_lines.append("os crash %d %s %s" % (k, pre_toks(pre), sess)); metas.append((name, sess, pre, final, k))
+    # every file the uncrashed run leaves under a final name must itself be a complete valid output (or the pre-existing file)
+    val_lines, val_meta = [], []
+    for (name, sess, pre), ans in zip(S, full):
+        if ans is None or not ans.startswith("I"):
+            continue
+        comp = name.split("/")[1]
+        for fname, content in files_of(ans).items():
+            if fname.endswith(".part") or pre.get(fname) == content or content == "-":
+                continue
+            data, err = E.decompress(content, comp)
+            if data is None:
+                if "final:undecodable" not in seen:
+                    seen.add("final:undecodable"); run.spec_fail.append(("final:undecodable", "os full " + sess, {"file": fname, "why": err}))
+            elif data:
+                val_lines.append("cdns " + data.hex()); val_meta.append((name, sess, fname))
+    if run.driver_ok and val_lines:
+        for (name, sess, fname), lg in zip(val_meta, G.run_driver(val_lines)):
+            run.case(("final-file", name, fname), True)
+            if lg is None or lg.startswith("S invalid"):
+                sig = "final:invalid-complete-file:" + name.split("/")[0]
+                if sig not in seen:
+                    seen.add(sig); run.spec_fail.append((sig, "os full " + sess, {"file": fname, "strict parser/validator": (lg or "")[:300]}))
     ml = [m for m in model_lines if m]
     mans = G.run_driver([m[0] for m in ml]) if run.driver_ok and ml else []
     for (line, trace, name, sess), a in zip(ml, mans):
